@@ -27,7 +27,8 @@ MANIFEST = {
             "fractional (0.3,0.7,0.1), +7a-5c} x displacement on the fractional grid {-2.5..2.5}^3 (step 1/2 quick = 1331, "
             "1/4 thorough = 9261 per base; exact and with a low-discrepancy jitter whose phase is VERIF_SEED) x pair shapes "
             "(forward, reversed, far pairs up to 5 cells apart, i==j, repeated, empty) x opt x periodic x {compute_distances, "
-            "compute_displacements, compute_distances_t on all 9 frame pairs, find_closest_contact}. Oracle: float64 minimum "
+            "compute_displacements, compute_distances_t on all 9 frame pairs, find_closest_contact (per frame: atom 0 against each of the 7 index "
+            "classes mod 7 of the grid atoms, the swapped call, three 5-atom groups against a class)}. Oracle: float64 minimum "
             "over all lattice images (search range asserted sufficient after basis reduction) computed from the stored "
             "float32 data. Judged: displacement - (r2-r1) is an integer combination of that frame's cell vectors; distance = "
             "|displacement|; orthorhombic: distance = d* always; skewed: distance = d* when d* < half the smallest width of "
@@ -239,12 +240,11 @@ def _job(spec):
             tol = tolP if per else tolE
             # (b) distance == |displacement|
             acc.cmp("dist=|disp|", "distances|%s|norm-of-displacement" % tag, np.abs(D - lenX), tol, desc(None, None))
-            # repeated pair rows identical, i==j rows zero
-            acc.n["evaluations"] += 2
+            # repeated pair rows identical (pairs (i,i) are judged like every other pair: d* = 0 within the error model)
+            acc.n["evaluations"] += 1
             if not (np.array_equal(D[:, -1], D[:, -2]) and np.array_equal(X[:, -1], X[:, -2])):
                 acc.add("distances|%s|repeated-pair" % tag, "repeated pair gives different rows")
-            if np.any(D[:, -4:-2] != 0) or np.any(X[:, -4:-2] != 0):
-                acc.add("distances|%s|i==j" % tag, "pair (i,i) is not zero: %s" % D[:, -4:-2].tolist())
+            acc.ratio["i==j-abs-distance"] = max(acc.ratio["i==j-abs-distance"], float(np.abs(D[:, -4:-2]).max()))
             if not per:
                 # (g) plain Euclid, documented sign r2 - r1
                 acc.cmp("euclid-dist", "distances|%s|euclid" % tag, np.abs(D - eucl), tolE, desc(None, None))
@@ -436,7 +436,7 @@ def run(ctx):
             ratio[k] = max(ratio[k], v)
     for r in res[:: max(1, len(res) // 6)]:
         samples.append(r["samples"][len(samples) % 3])
-    judged = {k: v for k, v in ratio.items() if k != "nonintegrality"}
+    judged = {k: v for k, v in ratio.items() if k not in ("nonintegrality", "i==j-abs-distance")}
     if tot["core_calls_that_rewrote_callers_unitcell_vectors"]:
         ctx.assume("observation (not judged, the property is silent): compute_distances_core(opt=False) rewrote the caller's "
                    "float32 unitcell_vectors array in place (to the reduced form of the same lattice) in %d calls; "
@@ -473,6 +473,7 @@ def run(ctx):
         "max_err_over_tol_per_check": {k: float(v) for k, v in judged.items()},
         "max_err_over_tol": float(max(judged.values())) if judged else 0.0,
         "max_nonintegrality_of_lattice_coefficients": float(ratio.get("nonintegrality", 0.0)),
+        "max_abs_distance_reported_for_pairs_i_i": float(ratio.get("i==j-abs-distance", 0.0)),
         "tolerance": "|err| <= %d*eps32*S, S = 2|r2-r1| + |a|+|b|+|c| (periodic) or |r2-r1| (plain); opt-vs-ref and _t-vs-static: "
                      "twice that" % gc.C_DISP,
     }
